@@ -4,16 +4,18 @@
     constructors of [zhop] (Boolean interface, set-family interface, make_node,
     clone / drop / gc, a reordering to [2; 0; 1], a variable added late, the
     same [restrict] call before the reordering, after it and after [add_vars]),
-    run with an unbounded cache that is flushed by [add_vars] and operand order
+    run with an unbounded cache (never cleared by [add_vars]) and operand order
     "always swap".
     [exz_fresh]: a fresh manager with 4 variables that is only brought into the
     same variable order and builds the two operands, run WITHOUT cache and
     with operand order "never swap".
-    [exz_stale]: the same long history with a cache that KEEPS its entries
-    across [add_vars] (the reaction of the code as it stands, which violates
-    [cav_ok]): the third [restrict] is served the entry of the first one and
-    its result is not the cofactor - the hypothesis [cav_ok] of the theorems
-    is necessary.
+    [exz_keyed] / [exz_unkeyed]: restrict, add_vars, the same restrict - with the
+    Restrict entries keyed by the number of levels (the state machine = the code
+    since f8637cd) the second call is computed afresh and is the cofactor, the
+    first call's entry stays in the cache under the old number of levels; with
+    the un-keyed lookups of DD/ZbddBool.v run directly on the kept cache (the
+    code before f8637cd) the second call is served the first one's entry, which
+    is not the cofactor.
     Everything here is computed by [vm_compute] on the executable model; the
     theorems of Mgr/HistoryZThms.v / HistoryZSpec.v are then applied to the
     computed states (their hypotheses are satisfiable, their conclusions are
@@ -49,42 +51,21 @@ Proof.
   rewrite (zbfun_of_local s r a a' H) by (rewrite N; exact Hag). rewrite Hb. symmetry. apply Hloc. exact Hag.
 Qed.
 
-(** ** Configuration A: unbounded cache flushed by [add_vars], operands always swapped *)
+(** ** Configuration A: unbounded cache, operands always swapped *)
 
 Definition zgtA : ref -> ref -> bool := fun _ _ => true.
-Definition zcavA : zacache -> zacache := fun _ => [].
-Notation zstepA := (hstep_z zgtA zacache zac_get zac_add [] zcavA).
-Notation zrunA := (hrun_z zgtA zacache zac_get zac_add [] zcavA).
+Notation zstepA := (hstep_z zgtA zacache zac_get zac_add []).
+Notation zrunA := (hrun_z zgtA zacache zac_get zac_add []).
 Lemma zemptyA : forall k a m, zac_get [] k a m = None.
 Proof. reflexivity. Qed.
-Lemma zcavA_ok : cav_ok zacache zac_get zcavA.
-Proof. intros c k a m r E. discriminate. Qed.
-
-(** a cache that invalidates only its Restrict entries satisfies [cav_ok] as well *)
-Definition zcavR (c : zacache) : zacache :=
-  filter (fun e : N * list ref * list nat * ref => negb (N.eqb (fst (fst (fst e))) zcode_restrict)) c.
-Lemma zcavR_ok : cav_ok zacache zac_get zcavR.
-Proof.
-  intros c k a m r. induction c as [|[[[k0 a0] m0] r0] c IH]; simpl; [discriminate|].
-  destruct (N.eqb_spec k0 zcode_restrict) as [E3|N3]; simpl.
-  - intros E. destruct (IH E) as [E' Hne]. split; [|exact Hne].
-    destruct (N.eqb_spec k0 k) as [Ek|_]; simpl; [congruence | exact E'].
-  - destruct (N.eqb k0 k && refs_eqb a0 a && nat_list_eqb m0 m) eqn:Eh.
-    + intros E. split; [exact E|]. apply andb_true_iff in Eh. destruct Eh as [Eh _].
-      apply andb_true_iff in Eh. destruct Eh as [Eh _]. apply N.eqb_eq in Eh. congruence.
-    + exact IH.
-Qed.
 
 (** ** Configuration B: no cache, operands never swapped *)
 
 Definition zgtB : ref -> ref -> bool := fun _ _ => false.
-Definition zcavB : unit -> unit := fun c => c.
-Notation zstepB := (hstep_z zgtB unit znc_get znc_add tt zcavB).
-Notation zrunB := (hrun_z zgtB unit znc_get znc_add tt zcavB).
+Notation zstepB := (hstep_z zgtB unit znc_get znc_add tt).
+Notation zrunB := (hrun_z zgtB unit znc_get znc_add tt).
 Lemma zemptyB : forall k a m, znc_get tt k a m = None.
 Proof. reflexivity. Qed.
-Lemma zcavB_ok : cav_ok unit znc_get zcavB.
-Proof. intros c k a m r E. discriminate. Qed.
 
 (** ** The long history *)
 
@@ -124,7 +105,7 @@ Definition exz_ops : list zhop :=
 Definition exz_stA : hstate_z zacache :=
   match zrunA (hinit_z zacache [] 3) exz_ops with Some st => st | None => hinit_z zacache [] 0 end.
 
-Lemma exz_preA : zhops_pre_b zgtA zacache zac_get zac_add [] zcavA (hinit_z zacache [] 3) exz_ops = true.
+Lemma exz_preA : zhops_pre_b zgtA zacache zac_get zac_add [] (hinit_z zacache [] 3) exz_ops = true.
 Proof. vm_compute. reflexivity. Qed.
 
 Lemma exz_runA : zrunA (hinit_z zacache [] 3) exz_ops = Some exz_stA.
@@ -154,21 +135,21 @@ Lemma exz_stA_shape :
   zchain_ok_b (hz_s zacache exz_stA) = true.
 Proof. vm_compute. repeat split; reflexivity. Qed.
 
-Theorem exz_reachA : hreach_z zgtA zacache zac_get zac_add [] zcavA 3 exz_stA.
+Theorem exz_reachA : hreach_z zgtA zacache zac_get zac_add [] 3 exz_stA.
 Proof.
   exists exz_ops. split; [|exact exz_runA].
-  apply (zhops_pre_b_sound zgtA zacache zac_get zac_add zac_lossy [] zemptyA zcavA zcavA_ok).
+  apply (zhops_pre_b_sound zgtA zacache zac_get zac_add zac_lossy [] zemptyA).
   - apply (hinit_z_inv zacache zac_get [] zemptyA).
   - exact exz_preA.
 Qed.
 
 Theorem exz_invA : HInvZ zacache zac_get exz_stA.
-Proof. apply (hreach_z_inv zgtA zacache zac_get zac_add zac_lossy [] zemptyA zcavA zcavA_ok 3). exact exz_reachA. Qed.
+Proof. apply (hreach_z_inv zgtA zacache zac_get zac_add zac_lossy [] zemptyA 3). exact exz_reachA. Qed.
 
 (** the theorems, instantiated *)
 Theorem exz_wfA : wf_b (hz_s zacache exz_stA) = true /\ zbdd_ok_b (hz_s zacache exz_stA) = true /\
                   zchain_ok_b (hz_s zacache exz_stA) = true.
-Proof. apply (histz_wf zgtA zacache zac_get zac_add zac_lossy [] zemptyA zcavA zcavA_ok 3). exact exz_reachA. Qed.
+Proof. apply (histz_wf zgtA zacache zac_get zac_add zac_lossy [] zemptyA 3). exact exz_reachA. Qed.
 
 (** slots 5 and 21 (a clone) hold the same edge, and so do slots 9 and 22: the
     restriction computed before and after collection + reordering (canonicity:
@@ -183,14 +164,14 @@ Theorem exz_canonA :
 Proof.
   split; [vm_compute; reflexivity|]. split; [vm_compute; reflexivity|]. intros e5 e6 E5 E6 Heq.
   assert (X : e5 = e6).
-  { apply (proj2 (histz_canonical zgtA zacache zac_get zac_add zac_lossy [] zemptyA zcavA zcavA_ok 3
+  { apply (proj2 (histz_canonical zgtA zacache zac_get zac_add zac_lossy [] zemptyA 3
                     exz_stA exz_reachA 5 6 e5 e6 E5 E6)). exact Heq. }
   assert (Y : hget (s_handles (hz_s zacache exz_stA)) 5 <> hget (s_handles (hz_s zacache exz_stA)) 6)
     by (vm_compute; discriminate).
   apply Y. rewrite E5, E6, X. reflexivity.
 Qed.
 
-(** ** [restrict] across [add_vars]: why [cav_ok] is needed *)
+(** ** [restrict] across [add_vars]: why the key of a Restrict entry carries the number of levels *)
 
 Definition zslot_ref (C : Type) (st : hstate_z C) (k : N) : ref :=
   match zslot C st k with Some r => r | None => RT 0 end.
@@ -206,43 +187,66 @@ Lemma exz_restrict_fresh :
                 (zbfun_of (hz_s zacache exz_stA) (zslot_ref zacache exz_stA 5))) = true.
 Proof. split; [vm_compute; discriminate | vm_compute; reflexivity]. Qed.
 
-(** the code as it stands keeps every cache entry across [add_vars]; the witness
-    of notes/HISTz.md: two variables, [f = x0], the cube handle [x1] *)
-Definition zcavI : zacache -> zacache := fun c => c.
-Definition exz_stale_ops : list zhop :=
+(** the witness of notes/HISTz.md: two variables, [f = x0], the cube handle [x1] *)
+Definition exz_keyed_ops : list zhop :=
   [ ZHVar 0 0 false; ZHVar 1 1 false;
     ZHRestrict 2 0 1;                     (* x0 restricted by x1 = true: x0 *)
     ZHAddVars 1;                          (* slot 0 is x0 /\ ~x2 now, slot 1 is x1 /\ ~x2 *)
     ZHRestrict 3 0 1 ].                   (* the cofactor is x0 *)
-Definition exz_stale : hstate_z zacache :=
-  match hrun_z zgtA zacache zac_get zac_add [] zcavI (hinit_z zacache [] 2) exz_stale_ops with
-  | Some st => st | None => hinit_z zacache [] 0 end.
-Definition exz_flushed : hstate_z zacache :=
-  match zrunA (hinit_z zacache [] 2) exz_stale_ops with
+Definition exz_keyed : hstate_z zacache :=
+  match zrunA (hinit_z zacache [] 2) exz_keyed_ops with
   | Some st => st | None => hinit_z zacache [] 0 end.
 
-(** with the kept cache the second [restrict] is served the first one's entry
-    (slot 3 = slot 2), and that edge is not the cofactor; with a cache flushed
-    by [add_vars] the result is the cofactor *)
-Lemma exz_restrict_stale :
-  hget (s_handles (hz_s zacache exz_stale)) 3 = hget (s_handles (hz_s zacache exz_stale)) 2 /\
-  bfun_eqb 3 (zbfun_of (hz_s zacache exz_stale) (zslot_ref zacache exz_stale 3))
+(** the state machine (Restrict entries keyed by the number of levels, cache kept by
+    [add_vars]): the second [restrict] is computed afresh, is the cofactor, and the
+    kept cache holds one entry per number of levels for the same operand edges *)
+Lemma exz_restrict_keyed :
+  hget (s_handles (hz_s zacache exz_keyed)) 3 <> hget (s_handles (hz_s zacache exz_keyed)) 2 /\
+  bfun_eqb 3 (zbfun_of (hz_s zacache exz_keyed) (zslot_ref zacache exz_keyed 3))
              (restrict_s [(1%nat, true); (2%nat, false)]
-                (zbfun_of (hz_s zacache exz_stale) (zslot_ref zacache exz_stale 0))) = false /\
-  hget (s_handles (hz_s zacache exz_flushed)) 3 <> hget (s_handles (hz_s zacache exz_flushed)) 2 /\
-  bfun_eqb 3 (zbfun_of (hz_s zacache exz_flushed) (zslot_ref zacache exz_flushed 3))
-             (restrict_s [(1%nat, true); (2%nat, false)]
-                (zbfun_of (hz_s zacache exz_flushed) (zslot_ref zacache exz_flushed 0))) = true.
+                (zbfun_of (hz_s zacache exz_keyed) (zslot_ref zacache exz_keyed 0))) = true /\
+  zac_get (hz_c zacache exz_keyed) zcode_restrict
+          [zslot_ref zacache exz_keyed 0; zslot_ref zacache exz_keyed 1] [2%nat] = Some (zslot_ref zacache exz_keyed 2) /\
+  zac_get (hz_c zacache exz_keyed) zcode_restrict
+          [zslot_ref zacache exz_keyed 0; zslot_ref zacache exz_keyed 1] [3%nat] = Some (zslot_ref zacache exz_keyed 3).
 Proof.
-  split; [vm_compute; reflexivity|]. split; [vm_compute; reflexivity|].
-  split; [vm_compute; discriminate | vm_compute; reflexivity].
+  split; [vm_compute; discriminate|]. split; [vm_compute; reflexivity|]. split; vm_compute; reflexivity.
 Qed.
 
-Lemma zcavI_not_ok : ~ cav_ok zacache zac_get zcavI.
-Proof.
-  intros Hok. destruct (Hok [(zcode_restrict, [], [], RT 0)] zcode_restrict [] [] (RT 0) eq_refl) as [_ Hne].
-  apply Hne. reflexivity.
-Qed.
+(** the same three calls with the un-keyed lookups of DD/ZbddBool.v on the kept
+    cache (the code before f8637cd): (first result, second result, operand, final table) *)
+Definition exz_unkeyed : option (ref * ref * ref * snap) :=
+  match zrunA (hinit_z zacache [] 2) [ZHVar 0 0 false; ZHVar 1 1 false] with
+  | Some st =>
+    let s := hz_s zacache st in
+    match zslot zacache st 0, zslot zacache st 1 with
+    | Some f, Some c =>
+      match zrestrict_edge zacache zac_get zac_add (S (nlevels s)) s [] f c with
+      | Some (s1, c1, r1) =>
+        match zadd_vars s1 1 with
+        | Some (s2, _) =>
+          match zrestrict_edge zacache zac_get zac_add (S (nlevels s2)) s2 c1 f c with
+          | Some (s3, _, r3) => Some (r1, r3, f, s3)
+          | None => None
+          end
+        | None => None
+        end
+      | None => None
+      end
+    | _, _ => None
+    end
+  | None => None
+  end.
+
+(** ... the second call is served the first one's entry, and that edge is not the cofactor *)
+Lemma exz_restrict_unkeyed :
+  match exz_unkeyed with
+  | Some (r1, r3, f, s3) =>
+    r3 = r1 /\
+    bfun_eqb 3 (zbfun_of s3 r3) (restrict_s [(1%nat, true); (2%nat, false)] (zbfun_of s3 f)) = false
+  | None => False
+  end.
+Proof. vm_compute. split; reflexivity. Qed.
 
 (** ** The fresh manager *)
 
@@ -258,16 +262,16 @@ Definition exz_fresh : list zhop :=
 Definition exz_stB : hstate_z unit :=
   match zrunB (hinit_z unit tt 4) exz_fresh with Some st => st | None => hinit_z unit tt 0 end.
 
-Lemma exz_preB : zhops_pre_b zgtB unit znc_get znc_add tt zcavB (hinit_z unit tt 4) exz_fresh = true.
+Lemma exz_preB : zhops_pre_b zgtB unit znc_get znc_add tt (hinit_z unit tt 4) exz_fresh = true.
 Proof. vm_compute. reflexivity. Qed.
 
 Lemma exz_runB : zrunB (hinit_z unit tt 4) exz_fresh = Some exz_stB.
 Proof. vm_compute. reflexivity. Qed.
 
-Theorem exz_reachB : hreach_z zgtB unit znc_get znc_add tt zcavB 4 exz_stB.
+Theorem exz_reachB : hreach_z zgtB unit znc_get znc_add tt 4 exz_stB.
 Proof.
   exists exz_fresh. split; [|exact exz_runB].
-  apply (zhops_pre_b_sound zgtB unit znc_get znc_add znc_lossy tt zemptyB zcavB zcavB_ok).
+  apply (zhops_pre_b_sound zgtB unit znc_get znc_add znc_lossy tt zemptyB).
   - apply (hinit_z_inv unit znc_get tt zemptyB).
   - exact exz_preB.
 Qed.
@@ -335,11 +339,11 @@ Theorem exz_fresh_equiv :
     wf_b (hz_s zacache stA') = true /\ wf_b (hz_s unit stB') = true.
 Proof.
   apply (histz_fresh_equiv zgtA zgtB zacache unit zac_get zac_add znc_get znc_add zac_lossy znc_lossy
-           [] tt zemptyA zemptyB zcavA zcavB zcavA_ok zcavB_ok 3 4 exz_ops exz_fresh exz_stA exz_stB).
-  - apply (zhops_pre_b_sound zgtA zacache zac_get zac_add zac_lossy [] zemptyA zcavA zcavA_ok);
+           [] tt zemptyA zemptyB 3 4 exz_ops exz_fresh exz_stA exz_stB).
+  - apply (zhops_pre_b_sound zgtA zacache zac_get zac_add zac_lossy [] zemptyA);
       [apply (hinit_z_inv zacache zac_get [] zemptyA) | exact exz_preA].
   - exact exz_runA.
-  - apply (zhops_pre_b_sound zgtB unit znc_get znc_add znc_lossy tt zemptyB zcavB zcavB_ok);
+  - apply (zhops_pre_b_sound zgtB unit znc_get znc_add znc_lossy tt zemptyB);
       [apply (hinit_z_inv unit znc_get tt zemptyB) | exact exz_preB].
   - exact exz_runB.
   - apply exz_same_order.
@@ -381,7 +385,7 @@ Theorem exz_spec_restrict :
   exists st', zstepA exz_stA (ZHRestrict 31 5 8) = Some st' /\
               zholds zacache st' 31 (restrict_s [(0%nat, true); (2%nat, false); (3%nat, false)] zfA5).
 Proof.
-  destruct (hstep_z_spec zgtA zacache zac_get zac_add zac_lossy [] zemptyA zcavA zcavA_ok exz_stA _ 31 _ exz_invA
+  destruct (hstep_z_spec zgtA zacache zac_get zac_add zac_lossy [] zemptyA exz_stA _ 31 _ exz_invA
               (ZSpRestrict zacache exz_stA 31 5 8 zfA5 _ exz_holdsA5 exz_holds_cube
                  ltac:(repeat constructor; simpl; intuition lia)
                  ltac:(intros v b [Hx|[Hx|[Hx|[]]]]; inversion Hx; subst; rewrite exz_nA; lia)))
@@ -393,7 +397,7 @@ Theorem exz_spec_change :
   exists st', zstepA exz_stA (ZHSub ZChange 31 5 3%nat) = Some st' /\
               zholds zacache st' 31 (zsub_s ZChange 3%nat zfA5).
 Proof.
-  destruct (hstep_z_spec zgtA zacache zac_get zac_add zac_lossy [] zemptyA zcavA zcavA_ok exz_stA _ 31 _ exz_invA
+  destruct (hstep_z_spec zgtA zacache zac_get zac_add zac_lossy [] zemptyA exz_stA _ 31 _ exz_invA
               (ZSpSub zacache exz_stA ZChange 31 5 3%nat zfA5 exz_holdsA5 ltac:(rewrite exz_nA; lia)))
     as [st' [E [_ [_ Hd]]]].
   exists st'. split; [exact E | exact Hd].
